@@ -1,6 +1,7 @@
 (* C14 — rollout, repeat and the wrapper steppers equal the naive loop.
    Model: Utils/Rollout.v (hand-written from exponax/_utils.py, _repeated_stepper.py,
-   _forced_stepper.py; tied to the code by the exact correspondence suites of harness/props/c14.py).
+   _forced_stepper.py; tied to the code by the exact correspondence suites of harness/props/c14.py and, for
+   rollout / repeat / the wrappers, by re-translation from the source, see C14_code_utilities_are_model_utilities).
    All statements hold for every state type A (pytrees included: a pytree state is one value),
    every stepper function f, every n. *)
 From Coq Require Import List Arith Bool.
@@ -83,6 +84,40 @@ Proof.
   destruct (repeated_stepper_spec fwd bwd sf Good H1 H2 H3 n u) as [H|H]; [exact H | subst; inversion Hn].
 Qed.
 Print Assumptions C14_repeated_stepper.
+
+(* rollout, repeat (with and without auxiliary input) and the two wrapper steppers are re-translated from the source on every run
+   (harness/translate/utilsfn.py -> Gen/UtilsGen.v: statement-by-statement into the option monad, fail-closed) and equal the
+   hand-written model for every state type, step function, n, flag value and auxiliary argument; without aux nothing is rejected *)
+From EXV Require Import Base.Scalar Gen.UtilsGen Tie.UtilsTie.
+Theorem C14_code_utilities_are_model_utilities : forall (A X : Type) (f : A -> A) (g : A -> X -> A) (n : nat)
+    (include_init constant_aux : bool) (u0 : A) (a : auxarg X),
+  gen_rollout f n include_init constant_aux u0 = Some (rollout f n include_init u0)
+  /\ gen_repeat f n constant_aux u0 = Some (repeat_fn f n u0)
+  /\ gen_rollout_aux g n include_init constant_aux u0 a = rollout_aux g n include_init constant_aux u0 a
+  /\ gen_repeat_aux g n constant_aux u0 a = repeat_aux g n constant_aux u0 a.
+Proof.
+  intros A X f g n include_init constant_aux u0 a. repeat split.
+  - apply rollout_tie.
+  - apply repeat_tie.
+  - apply rollout_aux_tie.
+  - apply repeat_aux_tie.
+Qed.
+Print Assumptions C14_code_utilities_are_model_utilities.
+
+(* RepeatedStepper.step / step_fourier of the source are the model's (its dt is the inner dt times the number of sub-steps);
+   ForcedStepper.step / step_fourier of the source hand u + dt * f to the inner step, at every array element *)
+Theorem C14_code_wrappers_are_model_wrappers : forall (S Sh : Type) (fwd : S -> Sh) (bwd : Sh -> S) (sf : Sh -> Sh) (n : nat) (u : S)
+    (K : Ops) (dt x f : K) (m : BinNums.Z),
+  gen_repeated_step fwd bwd sf n u = Some (repeated_step fwd bwd sf n u)
+  /\ gen_repeated_step_fourier sf n (fwd u) = Some (repeat_fn sf n (fwd u))
+  /\ gen_repeated_dt K dt m = omul dt (fz m)
+  /\ gen_forced_step_input K dt x f = oadd x (omul dt f)
+  /\ gen_forced_step_fourier_input K dt x f = oadd x (omul dt f).
+Proof.
+  intros S Sh fwd bwd sf n u K dt x f m. destruct (repeated_step_tie _ _ fwd bwd sf n u) as [H1 H2].
+  repeat split; try assumption; reflexivity.
+Qed.
+Print Assumptions C14_code_wrappers_are_model_wrappers.
 
 (* non-vacuity: concrete instances *)
 Example C14_ex_rollout : rollout (fun u => 2 * u + 1) 4 true 5 = [5; 11; 23; 47; 95].
